@@ -25,6 +25,7 @@ import (
 	"grog/internal/caching"
 	"grog/internal/caching/backends"
 	"grog/internal/config"
+	"grog/internal/hashing"
 	"grog/internal/label"
 	grogmaps "grog/internal/maps"
 	"grog/internal/model"
@@ -462,13 +463,16 @@ func TestRestore(t *testing.T) {
 // ---- fault-injecting backend ---------------------------------------------------------------------
 
 type faultBackend struct {
-	inner  backends.CacheBackend
-	n      atomic.Int64
-	failAt int64  // fail the n-th call (1-based), 0 = never
-	failOp string // "" = any op, else only calls of this kind count
-	midway bool   // for Set: consume half of the reader, hand the backend a reader that errors midway
-	ops    []string
-	mu     sync.Mutex
+	inner   backends.CacheBackend
+	n       atomic.Int64
+	failAt  int64  // fail the n-th call (1-based), 0 = never
+	failOp  string // "" = any op, else only calls of this kind count
+	midway  bool   // for Set: consume half of the reader, hand the backend a reader that errors midway
+	slowUs  int    // every Set takes this long before it acts (widens the window between two writers)
+	failKey string // if set: fail the first Set of exactly this key instead of the n-th call
+	keyHit  atomic.Bool
+	ops     []string
+	mu      sync.Mutex
 }
 
 var errInjected = errors.New("injected backend fault")
@@ -477,6 +481,9 @@ func (f *faultBackend) hit(op, path, key string) bool {
 	f.mu.Lock()
 	f.ops = append(f.ops, op+" "+path+"/"+key)
 	f.mu.Unlock()
+	if f.failKey != "" {
+		return op == "set" && key == f.failKey && f.keyHit.CompareAndSwap(false, true)
+	}
 	if f.failOp != "" && f.failOp != op {
 		return false
 	}
@@ -512,7 +519,11 @@ func (h *halfReader) Read(p []byte) (int, error) {
 }
 
 func (f *faultBackend) Set(ctx context.Context, path, key string, content io.Reader) error {
-	if f.hit("set", path, key) {
+	fail := f.hit("set", path, key)
+	if f.slowUs > 0 {
+		time.Sleep(time.Duration(f.slowUs) * time.Microsecond)
+	}
+	if fail {
 		if f.midway {
 			return f.inner.Set(ctx, path, key, &halfReader{r: content, left: 7})
 		}
@@ -542,6 +553,7 @@ type FaultResult struct {
 	WriteErr string   `json:"write_err,omitempty"`
 	CacheDir string   `json:"cache_dir"`
 	Order    []string `json:"order_violations"`
+	Conc     bool     `json:"concurrent,omitempty"` // the two targets were written by two goroutines at once
 }
 
 // TestFaults writes the outputs of a target (several file outputs, a flat and a nested directory
@@ -553,7 +565,7 @@ func TestFaults(t *testing.T) {
 		r := &rnd{s: *flagSeed*31337 + uint64(id)*7 + 3}
 		dir := filepath.Join(*flagDir, fmt.Sprintf("f%d", id))
 		ops := []string{"", "set", "set", "get", "exists"}
-		res := FaultResult{ID: id, FailOp: ops[r.intn(len(ops))], FailAt: int64(r.intn(24)), Midway: r.chance(1, 2)}
+		res := FaultResult{ID: id, FailOp: ops[r.intn(len(ops))], FailAt: int64(r.intn(24)), Midway: r.chance(1, 2), Conc: r.chance(1, 2)}
 		fmt.Printf("CASE %d %s\n", id, mustJSON(res))
 		func() {
 			e, err := newEnv(dir)
@@ -564,11 +576,19 @@ func TestFaults(t *testing.T) {
 			config.Global.HashAlgorithm = config.HashAlgorithmXXH3
 			res.CacheDir = config.Global.GetWorkspaceCacheDirectory()
 			fb := &faultBackend{inner: e.backend, failAt: res.FailAt, failOp: res.FailOp, midway: res.Midway}
+			if res.Conc {
+				fb.slowUs = 500 + r.intn(2500)
+			}
+			shared := []byte("shared content " + r.word(3, 9))
+			if res.Conc && r.chance(1, 2) {
+				// the write that fails is the one of the blob both targets have in common
+				fb.failKey = hashing.HashBytes(shared)
+				res.FailOp, res.FailAt = "set-of-the-shared-blob", 1
+			}
 			cas := caching.NewCas(fb)
 			tc := caching.NewTargetResultCache(fb)
 			reg := output.NewRegistry(e.ctx, cas)
 			pkg := filepath.Join(e.ws, "pkg")
-			shared := []byte("shared content " + r.word(3, 9))
 			_ = os.WriteFile(filepath.Join(pkg, "a.out"), []byte("a "+r.word(1, 30)), 0644)
 			_ = os.WriteFile(filepath.Join(pkg, "b.out"), shared, 0644)
 			_ = os.WriteFile(filepath.Join(pkg, "c.out"), shared, 0644) // same digest as b.out
@@ -583,15 +603,30 @@ func TestFaults(t *testing.T) {
 			target := &model.Target{Label: label.TL("pkg", "t"), ChangeHash: "changehash" + r.word(6, 6), Outputs: []model.Output{
 				model.NewOutput("file", "a.out"), model.NewOutput("file", "b.out"), model.NewOutput("file", "c.out"),
 				model.NewOutput("dir", "flat.d"), model.NewOutput("dir", "nest.d")}}
-			result, err := reg.WriteOutputs(e.ctx, target, nil)
-			if err == nil {
-				fb.mu.Lock()
-				fb.ops = append(fb.ops, "RESULT-BEGIN")
-				fb.mu.Unlock()
-				err = tc.Write(e.ctx, result)
+			writeFirst := func() {
+				result, err := reg.WriteOutputs(e.ctx, target, nil)
+				if err == nil {
+					if !res.Conc {
+						fb.mu.Lock()
+						fb.ops = append(fb.ops, "RESULT-BEGIN")
+						fb.mu.Unlock()
+					}
+					err = tc.Write(e.ctx, result)
+				}
+				if err != nil {
+					fb.mu.Lock()
+					res.WriteErr = err.Error() + res.WriteErr
+					fb.mu.Unlock()
+				}
 			}
-			if err != nil {
-				res.WriteErr = err.Error()
+			var firstDone sync.WaitGroup
+			if res.Conc {
+				// both targets finish at the same time on two workers: whatever one writer
+				// learns about a shared digest must not be trusted by the other before it is true
+				firstDone.Add(1)
+				go func() { defer firstDone.Done(); writeFirst() }()
+			} else {
+				writeFirst()
 			}
 			// a second, independent target of the same build shares contents (digests) with the first
 			fb.mu.Lock()
@@ -611,15 +646,23 @@ func TestFaults(t *testing.T) {
 				fb.ops = append(fb.ops, "RESULT-BEGIN")
 				fb.mu.Unlock()
 				if err2 = tc.Write(e.ctx, result2); err2 != nil {
+					fb.mu.Lock()
 					res.WriteErr += " | second: " + err2.Error()
+					fb.mu.Unlock()
 				}
 			} else {
+				fb.mu.Lock()
 				res.WriteErr += " | second: " + err2.Error()
+				fb.mu.Unlock()
 			}
+			firstDone.Wait()
 			fb.mu.Lock()
 			res.Ops = len(fb.ops)
 			seenResult := false
 			for _, o := range fb.ops {
+				if res.Conc {
+					break // the call order of two concurrent writers says nothing
+				}
 				if o == "SECOND-TARGET" {
 					seenResult = false
 					continue
